@@ -31,6 +31,9 @@ pub struct Case {
     /// LR parser over the right-nulled table (`table_type(LALR_RN)`)
     #[serde(default)]
     pub rn: bool,
+    /// generated with `skip_ws(false)` (whitespace is then never skipped by the lexer)
+    #[serde(default)]
+    pub no_skip_ws: bool,
 }
 
 fn kind_of(mode: u8) -> Option<LayoutKind> {
@@ -96,7 +99,7 @@ fn cfg_a(c: &Case) -> Cfg {
 }
 
 fn bcfg(c: &Case) -> BConfig {
-    BConfig { glr: c.glr, builder: 1, arrays: c.arrays, loc_info: false, fancy: false, custom_lexer: false, rn_table: c.rn && !c.glr }
+    BConfig { glr: c.glr, builder: 1, arrays: c.arrays, loc_info: false, fancy: false, custom_lexer: false, rn_table: c.rn && !c.glr, no_skip_ws: c.no_skip_ws }
 }
 
 /// dump production index -> ProdKind discriminant
@@ -159,7 +162,7 @@ fn expected_lines(d: &Dump, c: &Case, cfg: &Cfg, inputs: &[String]) -> Vec<Strin
         for (k, inp) in inputs.iter().enumerate() {
             dynp::reset_steps(200_000);
             let line = if c.glr {
-                match guarded(|| dynp::glr_parse(inp, RunOpts::default(), 1, false)) {
+                match guarded(|| dynp::glr_parse(inp, RunOpts { partial: false, skip_ws: !c.no_skip_ws }, 1, false)) {
                     Ok(Ok(o)) => {
                         let mut s = String::new();
                         if let Some(t) = o.trees.first() {
@@ -171,7 +174,7 @@ fn expected_lines(d: &Dump, c: &Case, cfg: &Cfg, inputs: &[String]) -> Vec<Strin
                     Err(_) => format!("P {k} PANIC"),
                 }
             } else {
-                match guarded(|| dynp::lr_parse(inp, RunOpts::default())) {
+                match guarded(|| dynp::lr_parse(inp, RunOpts { partial: false, skip_ws: !c.no_skip_ws })) {
                     Ok(Ok(t)) => {
                         let mut s = String::new();
                         canon_a(d, &pd, &t, &mut s);
@@ -253,7 +256,13 @@ fn gen_cases(seed: u64, batch: usize, ngrammars: usize) -> Vec<Case> {
             }
         };
         for (glr, arrays) in [(false, false), (false, true), (true, false), (true, true)] {
-            v.push(Case { gram: gram.clone(), glr, arrays, inputs: inputs.clone(), rn: false });
+            // every third plain grammar is generated with whitespace skipping off
+            let no_skip_ws = glr == arrays
+                && match &gram {
+                    Gram::Ast(_) => g % 8 == 1,
+                    Gram::Bnf(_, m) => *m >= 8 && g % 2 == 1,
+                };
+            v.push(Case { gram: gram.clone(), glr, arrays, inputs: inputs.clone(), rn: false, no_skip_ws });
         }
     }
     // right-nullable literature shapes with low-priority EMPTY alternatives, GLR only: the
@@ -272,10 +281,10 @@ fn gen_cases(seed: u64, batch: usize, ngrammars: usize) -> Vec<Case> {
             let tape = proptest::collection::vec(proptest::num::u16::ANY, 24).new_tree(&mut runner).unwrap().current();
             gen::prioritise_against_empty(&mut spec, &mut Cursor::new(&tape), all_low);
             for arrays in [false, true] {
-                v.push(Case { gram: Gram::Bnf(spec.clone(), 0), glr: true, arrays, inputs: inputs.clone(), rn: false });
+                v.push(Case { gram: Gram::Bnf(spec.clone(), 0), glr: true, arrays, inputs: inputs.clone(), rn: false, no_skip_ws: false });
             }
             // the same right-nulled table under an LR parser (one layout per grammar)
-            v.push(Case { gram: Gram::Bnf(spec.clone(), 0), glr: false, arrays: k % 2 == 0, inputs: inputs.clone(), rn: true });
+            v.push(Case { gram: Gram::Bnf(spec.clone(), 0), glr: false, arrays: k % 2 == 0, inputs: inputs.clone(), rn: true, no_skip_ws: false });
         }
     }
     v
@@ -437,7 +446,7 @@ pub fn run(tier: Tier, seed: u64, replay: Option<&Path>) -> RunResult {
         seed,
         st,
         failures,
-        "case = generated grammar (AST-shape-rich conflict-free grammars; conflicting BNF grammars, also with a Layout rule; overlapping terminals incl. a regex with top-level alternation) x {arrays, functions} x {LR, GLR; for the right-nullable family also LR over the LALR_RN table}, generic builder. The real generated g.rs is compiled by rustc in a scratch crate next to a comparison module emitted by the harness (variant lists recovered from the generated file with syn) which queries PARSER_DEFINITION.actions for EVERY (state, token), goto for every (state, nonterminal) the table defines, expected_token_kinds for every state and longest_match/grammar_order, and parses 10..13 generated inputs with the generated parser; every answer must equal the rendering of the real table dump under the same settings and the parse results (tree with productions, token kinds and spans, solution count, error offset) must equal the dump-driven parse of engine A, hence be identical for both layouts. non-trivial = module with >= 6 states whose comparison was complete".into(),
+        "case = generated grammar (AST-shape-rich conflict-free grammars; conflicting BNF grammars, also with a Layout rule; overlapping terminals incl. a regex with top-level alternation) x {arrays, functions} x {LR, GLR; for the right-nullable family also LR over the LALR_RN table}, generic builder; some grammars are generated with skip_ws(false). The real generated g.rs is compiled by rustc in a scratch crate next to a comparison module emitted by the harness (variant lists recovered from the generated file with syn) which queries PARSER_DEFINITION.actions for EVERY (state, token), goto for every (state, nonterminal) the table defines, expected_token_kinds for every state and longest_match/grammar_order, and parses 10..13 generated inputs with the generated parser; every answer must equal the rendering of the real table dump under the same settings and the parse results (tree with productions, token kinds and spans, solution count, error offset) must equal the dump-driven parse of engine A, hence be identical for both layouts. non-trivial = module with >= 6 states whose comparison was complete".into(),
         vec![
             "rustc compiles the generated code; modules that do not compile are C11's subject (counted as discards)".into(),
             "undefined goto entries are not queried: the table gives no answer for them and both layouts panic by design".into(),
